@@ -134,6 +134,8 @@ def run(repo, tier):
                  'than AssemblerError may leave assemble(); every value stored into a Line-holding attribute is the Line of the element '
                  'being processed; Line objects are created with the path being read and the 1-based index of the physical line; a handler '
                  'never replaces the line of an error that already has one; the error renders line and message.')
+    rep.assumptions = ['the integer returned by a mnemonic binding (a module-level partial / entry of the INSTRUCTIONS table) fits its instruction width: theorem of C01 / C02',
+                       'the reader (raw prefix of the line) and the parser (first token) select the same `include_bytes` lines']
     rep.trusted_base = ['CPython ast', 'bbverif.absint (abstract semantics of the Python subset used by asm.py, models of the standard library functions it calls)']
     rep.not_decided = ['exceptions Python raises implicitly on malformed arity or syntax (tuple unpacking, tokens[3] IndexError, KeyError of a table lookup, '
                        'UnicodeDecodeError on a trailing backslash, ZeroDivisionError for align 0): where the code has a handler for them its body is '
